@@ -374,4 +374,17 @@ ErrEq(a, b) == a.kw = b.kw /\ a.ip = b.ip /\ a.sp = b.sp /\ SameBag(a.ctx, b.ctx
 CountIn(s, e) == Cardinality({ k \in DOMAIN s : ErrEq(s[k], e) })
 SameBag(s1, s2) == /\ Len(s1) = Len(s2)
                    /\ \A k \in DOMAIN s1 : CountIn(s1, s1[k]) = CountIn(s2, s1[k])
+
+----------------------------------------------------------------------------
+(* C05: restriction of a schema object to one keyword and the siblings it consults; attribution *)
+\* the members of S named k or consulted by k, in their original order
+Restr(d, S, k) ==
+  LET keep == SelectSeq([i \in DOMAIN S.k |-> i], LAMBDA i : S.k[i] = k \/ S.k[i] \in Consults(d, k)) IN
+  JObj([j \in DOMAIN keep |-> S.k[keep[j]]], [j \in DOMAIN keep |-> S.v[keep[j]]])
+\* the keyword an error is attributed to: first element of its schema path (then/else count as if)
+AttrOfPath(sp) == IF sp = <<>> THEN <<>>
+                  ELSE LET h == sp[1].s IN IF h \in {K_then, K_else} THEN K_if ELSE h
+Attr(e) == AttrOfPath(e.sp)
+OfKw(es, k) == SelectSeq(es, LAMBDA e : Attr(e) = k)
+Active(d, S) == { S.k[i] : i \in { i \in DOMAIN S.k : S.k[i] \in Keywords(d) } }
 =============================================================================
